@@ -237,6 +237,7 @@ def _clone_inbeam(R, pbp, geo):
             for a in asg:
                 e = a.value
                 inner = e.args[0] if isinstance(e, ast.Call) and (pyfacts.dotted(e.func) or "").split(".")[-1] in ("abs", "fabs") and e.args else e
+                inner = pyfacts.resolved(fn, inner, 3, keep=tuple(names))      # temporaries ( syr = x*sin + y*cos ) read through
                 env = {}
                 for n in ast.walk(inner):
                     if isinstance(n, ast.Name) and n.id not in ("np", "numpy", "abs"):
